@@ -528,7 +528,7 @@ class OneofSim(Simulator):
                    "a constructor call / class-form from_dict names at most one member per group (no defined 'last')",
                    "single actor: there is no interleaving to explore"]
     tiers = {
-        "quick": dict(runs=15000, chunk=250, wall_cap=300, det_sample=150),
+        "quick": dict(runs=24000, chunk=250, wall_cap=300, det_sample=150),
         "thorough": dict(runs=3000000, chunk=1000, wall_cap=1500, det_sample=3000),
     }
     expected_probes = ["probe:member-assigned-its-default-value", "probe:decode-with-several-members",
@@ -939,7 +939,7 @@ class ObserverSim(Simulator):
                    "serialized_on_wire of plain sub-message fields)", "an observer raising is recorded, not judged",
                    "nothing is demanded of a shallow copy's independence", "single actor: no interleaving to explore"]
     tiers = {
-        "quick": dict(runs=8000, chunk=200, wall_cap=300, det_sample=100),
+        "quick": dict(runs=14000, chunk=200, wall_cap=300, det_sample=100),
         "thorough": dict(runs=2000000, chunk=1000, wall_cap=1500, det_sample=3000),
     }
     expected_probes = ["probe:read-lazily-defaulted-nested-message", "probe:to_pydict-called",
